@@ -275,10 +275,17 @@ def parts(tier):
                             if a > b and (a, b) != (twin[1], twin[0]):
                                 continue  # one representative of a > b per textgrid
                             yield (tiers, 0.0, 4.0, a, b)
+        # textgrids with no tier at all / a single tier: the textgrid-level window check and span stand on their own there
+        for tiers in ((), (("P", "p", D.labelled_points((1.0, 3.0))),), (("I", "a", D.labelled(((0.0, 1.0), (2.0, 4.0)))),),
+                      (("P", "p", ()),), (("I", "a", ()),)):
+            for a in twin:
+                for b in twin:
+                    yield (tiers, 0.0, 4.0, a, b)
 
     ps.append(InputPart(
         "crop-textgrid", gen_tg, _check_tg,
-        rule="3-tier textgrids (interval, point, interval) from interval sets of <=2 on a 5-grid x windows; "
+        rule="3-tier textgrids (interval, point, interval) from interval sets of <=2 on a 5-grid x windows (plus textgrids with no tier "
+             "and with one tier x all windows incl. a >= b); "
              "tier-wise comparison with the model, textgrid span, validate() for strict/truncated",
         bounds={"tiers": 3, "stride_over_second_and_third_tier": 3 if quick else 1}))
 
